@@ -2,6 +2,7 @@ package file
 
 import (
 	"context"
+	"errors"
 	"io"
 	"sync"
 
@@ -26,6 +27,8 @@ type shardNodeFile struct {
 }
 
 var _ adl.ADL = (*shardNodeFile)(nil)
+
+var errNegativeSeek = errors.New("unixfsnode/file: seek to a negative position")
 
 type shardNodeReader struct {
 	*shardNodeFile
@@ -180,17 +183,23 @@ func (s *shardNodeReader) Read(p []byte) (int, error) {
 }
 
 func (s *shardNodeReader) Seek(offset int64, whence int) (int64, error) {
+	target := s.offset
+	switch whence {
+	case io.SeekStart:
+		target = offset
+	case io.SeekCurrent:
+		target = s.offset + offset
+	case io.SeekEnd:
+		target = s.length() + offset
+	}
+	if target < 0 {
+		// reject the seek without moving: the reader stays usable at its old position
+		return 0, errNegativeSeek
+	}
 	if s.rdr != nil {
 		s.rdr = nil
 	}
-	switch whence {
-	case io.SeekStart:
-		s.offset = offset
-	case io.SeekCurrent:
-		s.offset += offset
-	case io.SeekEnd:
-		s.offset = s.length() + offset
-	}
+	s.offset = target
 	return s.offset, nil
 }
 
